@@ -435,6 +435,15 @@ fn run_schedule(scn: &Scn, tape: &Tape, rep: &mut RunReport, si: usize) -> Optio
         d["schedule_index"] = json!(si);
         rep.fail(Failure::new(clause, obs, d));
     };
+    if scn.supply_entry && scn.gc_threshold % 2 == 1 {
+        // the same host, even more eager: it hands the entry's source over under the entry's path
+        // BEFORE it prepares the program
+        if h.interp.provide_module(ModulePath::new(main.path.clone()), &source_of(scn, 0)).is_ok() {
+            entry_supplied = true;
+            rep.bump("fault_entry_module_supplied_before_prepare", 1);
+            trace.push_str("pre:entry;");
+        }
+    }
     let mut r = h.interp.prepare(&source_of(scn, 0), Some(ModulePath::new(main.path.clone())));
     let mut rounds = 0usize;
     let mut last_request: Option<BTreeSet<String>> = None;
